@@ -28,11 +28,26 @@ impl<A: Actor> Spawner<A> for SmolSpawner {
                 if let Some(handle) = handle.take() {
                     // TODO: don't eat the error
 
+                    // a `smol::Task` cancels its task when dropped: if this join future is
+                    // dropped while still pending the actor must keep running (detached), as
+                    // it does with the other runtimes' join handles
+                    struct DetachOnDrop<T>(Option<smol::Task<T>>);
+                    impl<T> Drop for DetachOnDrop<T> {
+                        fn drop(&mut self) {
+                            if let Some(task) = self.0.take() {
+                                task.detach();
+                            }
+                        }
+                    }
+                    let mut handle = DetachOnDrop(Some(handle));
                     // awaiting a task that panicked panics in the awaiter: report it as `None`
-                    let actor = futures::FutureExt::catch_unwind(std::panic::AssertUnwindSafe(handle))
-                        .await
-                        .ok()
-                        .and_then(Result::ok);
+                    let actor = match handle.0.as_mut() {
+                        Some(task) => futures::FutureExt::catch_unwind(std::panic::AssertUnwindSafe(task))
+                            .await
+                            .ok()
+                            .and_then(Result::ok),
+                        None => None,
+                    };
                     log::trace!("smol task completed");
                     actor
                 } else {
